@@ -143,6 +143,23 @@ func ambientFindings(p *Prog, pkgs []string) []c06Finding {
 	for _, pk := range pkgs {
 		for _, f := range p.FuncsIn(pk) {
 			p.instrs(f, func(b *ssa.BasicBlock, i int, in ssa.Instruction) {
+				// the order in which values arrive on a channel fed by several goroutines is the schedule's
+				switch x := in.(type) {
+				case *ssa.UnOp:
+					if x.Op == token.ARROW {
+						out = append(out, c06Finding{"R06d", FuncName(f) + " receives from a channel", "the arrival order of values sent by concurrent workers depends on the schedule; results must be placed by index, not in completion order", instrPos(in), false})
+					}
+				case *ssa.Select:
+					out = append(out, c06Finding{"R06d", FuncName(f) + " selects on channels", "the chosen case depends on the schedule", instrPos(in), false})
+				case *ssa.Range:
+					if _, isChan := x.X.Type().Underlying().(*types.Chan); isChan {
+						out = append(out, c06Finding{"R06d", FuncName(f) + " ranges over a channel", "the arrival order of values sent by concurrent workers depends on the schedule; results must be placed by index, not in completion order", instrPos(in), false})
+					}
+				case *ssa.Next:
+					if r0, ok := x.Iter.(*ssa.Range); ok {
+						_ = r0
+					}
+				}
 				c, ok := in.(ssa.CallInstruction)
 				if !ok {
 					return
@@ -159,9 +176,9 @@ func ambientFindings(p *Prog, pkgs []string) []c06Finding {
 
 func checkC06(p *Prog, r *Report) {
 	r.Rule("R06a", "map iteration: every range over a map in the translator packages is order-insensitive by a recognised idiom: at most one element (fact len <= 1), body only updates maps/accumulates, or the collected elements are sorted after the loop", 1)
-	r.Rule("R06b", "immutable globals: no package-level variable of the translator packages is stored to, and no map/slice reached through one is updated, outside package initialisation", 3)
+	r.Rule("R06b", "immutable globals: no package-level variable of the translator packages is stored to, no map/slice reached through one is updated, and no mutating method is called on one (sync.Map.Store, …), outside package initialisation", 3)
 	r.Rule("R06c", "worker slots: a goroutine launched by the translator writes captured state only as slot[i] of a captured slice with i its own parameter, bound at the go statement to the loop index; every other captured variable is only read or is a WaitGroup; WaitGroup.Add precedes the loop and Wait post-dominates it; the per-package context is created inside the worker", 4)
-	r.Rule("R06d", "ambient sources: no call to clock, random, environment, pid, hostname or scheduler-introspection functions from the translator packages", 0)
+	r.Rule("R06d", "ambient sources: no call to clock, random, environment, pid, hostname or scheduler-introspection functions and no channel receive/select (arrival order is the schedule's) in the translator packages", 0)
 	r.Rule("R06e", "sort before emit: Decls receives the result of sortedFiles, which sorts by path with a strict order; PrintImports de-duplicates with a seen-set (or sorts before compacting) and sorts before joining", 4)
 	r.Rule("R06f", "packages do not influence each other in the command: whether a package's file is written depends only on that package's own error (from its err == nil edge every path to the next iteration passes the write; from its err != nil edge the write is reachable only through -ignore-errors) — the R17b analysis", 2)
 	r.Assume = append(r.Assume, "go/packages, go/types and token.FileSet are safe for concurrent use as documented", "fmt prints maps with sorted keys (Go >= 1.12)")
@@ -247,6 +264,19 @@ func c06Globals(p *Prog, r *Report) {
 					case *ssa.Store:
 						if x.Addr == ssa.Value(g) {
 							bad = append(bad, "assigned in "+FuncName(f))
+						}
+					case *ssa.Call:
+						// a pointer-receiver method called on the variable itself (sync.Map.Store, a cache's Put, …)
+						if len(x.Call.Args) > 0 && x.Call.Args[0] == ssa.Value(g) && !x.Call.IsInvoke() {
+							if cal := x.Call.StaticCallee(); cal != nil && cal.Signature.Recv() != nil {
+								n := calleeName(x)
+								switch {
+								case strings.HasPrefix(n, "(*sync.Mutex)."), strings.HasPrefix(n, "(*sync.RWMutex)."), strings.HasPrefix(n, "(*sync.Once)."):
+								case strings.HasSuffix(n, ".Load") || strings.HasSuffix(n, ".Range") || strings.HasSuffix(n, ".Len") || strings.HasSuffix(n, ".String"):
+								default:
+									bad = append(bad, n+" on the variable in "+FuncName(f))
+								}
+							}
 						}
 					case *ssa.UnOp:
 						if x.X != ssa.Value(g) {
